@@ -559,6 +559,26 @@ def run(ctx: Any, prog: Program) -> None:
         ctx.check('C13.Z12', joined == want12, vpk, gp, f'{nm12!r} is split into {parts!r}, i.e. stored and listed as {joined!r} instead of {want12!r}: the name the archive keeps is not the name it was given '
                   '(two different names can collapse into one entry)', func='_get_file_parts', text=f'{nm12!r} keeps its name')
 
+    # ---- Z16: archive data is on disk when the call that wrote it returns ---------------------------------------------------------------------
+    # write_dirfile() may be called at any time and records offsets into the numbered archives; a reopened VPK reads them from disk.  Every
+    # `open(<archive>, 'ab' / 'r+b' ...)` in vpk.py is therefore the context expression of a `with` (closed - flushed - before the function
+    # returns); a handle parked on the object (a cache of open archives) keeps the last block in a buffer that nothing flushes before the
+    # directory is written.
+    ctx.rule('C13.Z16', 'archive files opened for writing are closed by the function that opened them', floor=1)
+    n16 = 0
+    for q16, fl16 in vpk.all_funcs().items():
+        for f16 in fl16:
+            for c16 in walk_no_nested(f16):
+                if not (isinstance(c16, ast.Call) and dotted(c16.func) in ('open', 'io.open') and len(c16.args) >= 2 and isinstance(c16.args[1], ast.Constant) and isinstance(c16.args[1].value, str)
+                        and any(ch in c16.args[1].value for ch in 'aw+')):
+                    continue
+                n16 += 1
+                par16 = vpk.parents.get(c16)
+                in_with = isinstance(par16, ast.withitem) or (isinstance(par16, ast.Attribute) and par16.attr == 'close' and isinstance(vpk.parents.get(par16), ast.Call))          # `open(p, 'wb').close()`: created and closed at once
+                ctx.check('C13.Z16', in_with, vpk, c16, f'{q16} opens `{U(c16)[:60]}` outside a `with` block and keeps the handle: what was appended last stays in the handle\'s buffer, so after write_dirfile() the '
+                          'directory lists a file whose bytes are not in the archive yet (a reopened VPK reads it back short)', func=q16, text=f'{q16}: `{U(c16)[:40]}` closed where it was opened')
+    ctx.shape('C13.Z16', n16 >= 2, vpk, vpk.tree, f'{n16} opens for writing found in vpk.py (FileInfo.write and write_dirfile confirmed by hand)', text='opens for writing')
+
     # ---- Z15: file data in a numbered archive is read at the offset recorded for it ---------------------------------------------------------
     # Overwrites and removals leave dead blocks in the numbered archives and new data is appended, so the live blocks are neither contiguous
     # nor in directory order: a read of `<entry>.arch_len` bytes is right only directly after `seek(<entry>.offset)` on the same file object.
